@@ -146,6 +146,8 @@ func symFamily(c *inst, raw json.RawMessage, full bool, sum *core.Summary) {
 							k.symValues(routine, c, w)
 							if jobz == lapack.EVCompute {
 								k.symVectors(routine, c, a, lda)
+								// every eigenvector (repeated eigenvalues too): GenPred!SymAccept
+								k.symIdentity(routine, c, a, lda, w)
 							} else {
 								k.otherTriangle(routine, a, n, lda, uplo)
 							}
@@ -247,6 +249,7 @@ func symFamily(c *inst, raw json.RawMessage, full bool, sum *core.Summary) {
 						k.cmpPad("Dsteqr", "z", q, lda, n, n)
 						k.symValues("Dsytrd+Dorgtr+Dsteqr", c, d2)
 						k.symVectors("Dsytrd+Dorgtr+Dsteqr", c, q, lda)
+						k.symIdentity("Dsytrd+Dorgtr+Dsteqr", c, q, lda, d2)
 					}
 				}
 			}
